@@ -29,10 +29,10 @@ def floors(ctx):
     if ctx.tier == "quick":
         return {"rows_single_link": 400, "evaluations": 5000, "unlink_sweeps": 200, "count_relation_checked": 2000,
                 "pairs_checked_with_warm_cache": 2000, "unlink_sweeps_with_warm_cache": 50,
-                "returned_sets_mutated_by_the_caller": 2000}
+                "returned_sets_mutated_by_the_caller": 2000, "graphs_with_ends_filled_under_warm_cache": 10}
     return {"rows_single_link": 400, "evaluations": 50000, "unlink_sweeps": 2000, "count_relation_checked": 20000,
             "pairs_checked_with_warm_cache": 20000, "unlink_sweeps_with_warm_cache": 500,
-            "returned_sets_mutated_by_the_caller": 20000}
+            "returned_sets_mutated_by_the_caller": 20000, "graphs_with_ends_filled_under_warm_cache": 100}
 
 
 def _nb_filter(g1):
@@ -70,7 +70,18 @@ def warm(g):
                 oracles.outcome(helpers.neighbors, v, d, u, None)
 
 
-def check_pair(ctx, g, ai, bi, ds, uname, fname, rows=None, _shrinking=False):
+def check_pair(ctx, g, ai, bi, ds, uname, fname, rows=None, _shrinking=False, case_extra=None):
+    if case_extra:
+        class _Tagged:
+            """Adds the edit script to every recorded case (a replay must redo the edits)."""
+
+            def __getattr__(self, name):
+                return getattr(ctx, name)
+
+            def violation(self, mech, what, case):
+                ctx.violation(mech + ":ends_filled_under_warm_cache", what, dict(case, **case_extra))
+
+        return check_pair(_Tagged(), g, ai, bi, ds, uname, fname, rows, True, None)
     a, b = g.verts[ai], g.verts[bi]
     u = UNKS[uname]
     filt = zoo.FL_FILTERS[fname]
@@ -145,6 +156,39 @@ def check_pair(ctx, g, ai, bi, ds, uname, fname, rows=None, _shrinking=False):
         got[1].add("not a link")
         ctx.count("returned_sets_mutated_by_the_caller")
     return True
+
+
+def completed_case(ctx, spec, edits):
+    """
+    Edges that had an open end while the neighbor caches were filled, and were completed through the v1 / v2 setters
+    afterwards (caching on): find_links and neighbors() must agree on the graph as it is now.
+    edits: [edge index, end (0/1), vertex index the end is finally assigned].
+    """
+    Vertex.NEIGHBOR_CACHING = True
+    try:
+        g = graphs.build(spec)
+        todo = []
+        for k, end, target in edits:
+            e = g.edges[k] if k < len(g.edges) else None
+            if e is None or not isinstance(e, zoo.TwoEndedLink) or target >= len(g.verts):
+                continue
+            if oracles.outcome(setattr, e, "v1" if end == 0 else "v2", None)[0] == "ok":
+                todo.append((e, end, target))
+        if not todo:
+            return
+        warm(g)
+        for e, end, target in todo:
+            oracles.outcome(setattr, e, "v1" if end == 0 else "v2", g.verts[target])
+        if any(len(e.vertices) != 2 for e in g.edges if e is not None):
+            return  # (an end stayed open: outside the domain of complete two-ended links)
+        ctx.count("graphs_with_ends_filled_under_warm_cache")
+        nv = len(g.verts)
+        for ai in range(nv):
+            for bi in range(nv):
+                for ds, un, fn in ALL_SETTINGS:
+                    check_pair(ctx, g, ai, bi, ds, un, fn, case_extra={"edits": edits})
+    finally:
+        Vertex.NEIGHBOR_CACHING = False
 
 
 def _show(g, res):
@@ -278,6 +322,19 @@ def run(ctx):
                 e = rng.choice(spec["edges"])
                 ai, bi = (e[1], e[2]) if rng.random() < 0.5 else (e[2], e[1])
             unlink_sweep(ctx, spec, ai, bi, destroy=rng.random() < 0.5, cache=rng.random() < 0.5)
+    for n in range(ctx.n(60 if ctx.tier == "quick" else 400)):
+        spec = graphs.rand_spec(rng, nmax=4, mmax=6, uni_mode="none", self_p=0.2, ecls=graphs.ECLS_ALL)
+        for key in ("half", "edges_gone", "extra"):
+            spec.pop(key, None)
+        if not spec["edges"]:
+            continue
+        edits = [[rng.randrange(len(spec["edges"])), rng.randrange(2), rng.randrange(len(spec["verts"]))]
+                 for _ in range(rng.randint(1, 2))]
+        # (mostly back to the vertex that was there before: the graph ends as it was born)
+        for ed in edits:
+            if rng.random() < 0.6:
+                ed[2] = spec["edges"][ed[0]][1 + ed[1]]
+        completed_case(ctx, spec, edits)
     ctx.assumptions += [
         "filters are pure; only complete two-ended links",
         "under LNK_UNKNOWN_ERROR with a filter rejecting every unknown joining link, NotImplementedError or the filtered set are both accepted",
@@ -285,6 +342,10 @@ def run(ctx):
 
 
 def replay(ctx, case):
+    if case.get("edits"):
+        completed_case(ctx, case["spec"], case["edits"])
+        ctx.nontrivial("replay-a")
+        return
     if case["kind"] == "pair":
         for cache in (False, True):
             Vertex.NEIGHBOR_CACHING = cache
